@@ -25,9 +25,10 @@ PID = 'C12'
 INVARIANTS = ['TypeOK', 'InvRecords', 'InvForwardOnce', 'InvForwardedIfEligible', 'InvNamed', 'InvOnlyAdded',
               'InvWaitHeld', 'InvRRBalanced', 'InvBFEligible', 'InvBFUsedReturns', 'InvUsedIsGhost']
 DEVS = ['DevEarlyNotCleared', 'DevBFRaiseSkipsBatch', 'DevAddForgetsState',
-        'DevContradictionRaises']
+        'DevContradictionRaises', 'DevHalfValidAborts']
 # behaviours of 'the code as it was / is': everything but the regression class
-DEVS_ASIS = ['DevEarlyNotCleared', 'DevBFRaiseSkipsBatch', 'DevContradictionRaises']
+DEVS_ASIS = ['DevEarlyNotCleared', 'DevBFRaiseSkipsBatch', 'DevContradictionRaises',
+             'DevHalfValidAborts']
 
 T4 = ['t1', 't2', 't3', 't4']
 T3 = T4[:3]
@@ -37,20 +38,21 @@ ACT, PEND = 'PMGR_ACTIVE', 'PMGR_ACTIVE_PENDING'
 
 
 def scen(name, policy, tasks, pilots, named, cores, hwm, lo=ACT, hi=ACT,
-         addst=('NEW', ACT), notif=(ACT, 'DONE'), maxb=3, maxp=2):
+         addst=('NEW', ACT), notif=(ACT, 'DONE'), maxb=3, maxp=2, half=False):
+    '''half: commands may name pilots they cannot be applied to (half-valid commands)'''
     return dict(name=name, policy=policy, tasks=tasks, pilots=pilots, named=named, cores=cores,
-                hwm=hwm, lo=lo, hi=hi, addst=addst, notif=notif, maxb=maxb, maxp=maxp)
+                hwm=hwm, lo=lo, hi=hi, addst=addst, notif=notif, maxb=maxb, maxp=maxp, half=half)
 
 
 # exhaustive scenarios: (quick?, scenario)
 SCENARIOS = [
     (True,  scen('rr-3t3p', 'RR', T3, P3, {'t1': 'p1'}, {}, {p: 2 for p in P3},
                  addst=(ACT,), notif=('DONE',))),
-    (True,  scen('bf-3t2p', 'BF', T3, P2, {'t1': 'p1'}, {'t2': 2}, {'p1': 2, 'p2': 1})),
+    (True,  scen('bf-3t2p', 'BF', T3, P2, {'t1': 'p1'}, {'t2': 2}, {'p1': 2, 'p2': 1}, half=True)),
     (False, scen('bf-4t2p', 'BF', T4, P2, {'t1': 'p1'}, {'t2': 2}, {'p1': 2, 'p2': 1})),
     # pilot documents which are stale or contradict a final state already notified
     (True,  scen('rr-2t2p-contradict', 'RR', T3[:2], P2, {'t1': 'p1'}, {}, {p: 2 for p in P2},
-                 addst=(ACT, 'FAILED'), notif=('DONE', 'CANCELED'))),
+                 addst=(ACT, 'FAILED'), notif=('DONE', 'CANCELED'), half=True)),
     (True,  scen('bf-2t2p-stale', 'BF', T3[1:], P2, {}, {}, {'p1': 2, 'p2': 1},
                  addst=('PMGR_LAUNCHING', ACT, 'CANCELED'), notif=(ACT, 'CANCELED', 'DONE'), maxp=1)),
     (False, scen('rr-4t3p', 'RR', T4, P3, {'t1': 'p1'}, {}, {p: 2 for p in P3},
@@ -67,13 +69,13 @@ SCENARIOS = [
 # behaviours for the real code: a wider mix, simulation only
 SIM_SCENARIOS = [
     scen('sim-rr', 'RR', T4, P3, {'t1': 'p1', 't4': 'p3'}, {}, {p: 2 for p in P3},
-         addst=('NEW', ACT, 'FAILED'), notif=(ACT, 'DONE', 'FAILED')),
+         addst=('NEW', ACT, 'FAILED'), notif=(ACT, 'DONE', 'FAILED'), half=True),
     scen('sim-bf', 'BF', T4, P3, {'t1': 'p1'}, {'t2': 2}, {'p1': 2, 'p2': 1, 'p3': 2},
-         addst=('PMGR_LAUNCHING', ACT, 'CANCELED'), notif=(PEND, ACT, 'DONE', 'FAILED')),
+         addst=('PMGR_LAUNCHING', ACT, 'CANCELED'), notif=(PEND, ACT, 'DONE', 'FAILED'), half=True),
     scen('sim-bf-window', 'BF', T4, P3, {'t3': 'p2'}, {'t4': 2}, {'p1': 3, 'p2': 2, 'p3': 1},
-         lo=PEND, hi=ACT, addst=('NEW', PEND, ACT, 'DONE'), notif=(PEND, ACT, 'CANCELED', 'DONE')),
+         lo=PEND, hi=ACT, addst=('NEW', PEND, ACT, 'DONE'), notif=(PEND, ACT, 'CANCELED', 'DONE'), half=True),
     scen('sim-bf-nonames', 'BF', T4, P3, {}, {'t1': 2}, {'p1': 2, 'p2': 2, 'p3': 4},
-         addst=('NEW', ACT), notif=(ACT, 'DONE')),
+         addst=('NEW', ACT), notif=(ACT, 'DONE'), half=True),
 ]
 
 
@@ -102,6 +104,7 @@ def mc_files(sc, devs=(), invariants=None):
            % (sc['policy'], R.pval(sc['lo']), R.pval(sc['hi']), sc['maxb'], sc['maxp']))
     for d in DEVS:
         cfg += ' %s = %s\n' % (d, 'TRUE' if d in devs else 'FALSE')
+    cfg += ' HalfValid = %s\n' % ('TRUE' if sc.get('half') else 'FALSE')
     cfg += 'SPECIFICATION Spec\nCHECK_DEADLOCK FALSE\n'
     for i in (INVARIANTS if invariants is None else invariants):
         cfg += 'INVARIANT %s\n' % i
@@ -127,10 +130,11 @@ def script_from_behaviour(path):
         if name == 'Submit':
             ops.append(['submit', list(tlc.parse_value(args))])
         elif name == 'AddPilots':
-            f = tlc.parse_value(args)
-            ops.append(['add', [[p, f[p]] for p in sorted(f)]])
+            f, rev = tlc.parse_value('<<%s>>' % args)
+            ops.append(['add', [[p, f[p]] for p in sorted(f, reverse=bool(rev))]])
         elif name == 'RemovePilots':
-            ops.append(['remove', list(tlc.parse_value(args))])
+            P, rev = tlc.parse_value('<<%s>>' % args)
+            ops.append(['remove', sorted(P, reverse=bool(rev))])
         elif name == 'PilotState':
             p, s = tlc.parse_value('<<%s>>' % args)
             ops.append(['pstate', p, s])
@@ -179,14 +183,36 @@ def directed():
          ['submit', ['t1', 't3']], ['tstates', ['t1', 't3'], 'DONE']],
         [['add', [['p2', ACT]]], ['pstate', 'p1', 'DONE'], ['add', [['p1', 'CANCELED']]],
          ['submit', ['t3', 't4']]],
+        # half-valid remove commands: a pilot which was never added / is removed already,
+        # after or before a valid one; tasks arrive afterwards
+        [['add', [['p1', ACT], ['p2', ACT]]], ['remove', ['p1', 'p3']], ['submit', ['t3', 't4']]],
+        [['add', [['p1', ACT], ['p2', ACT]]], ['remove', ['p3', 'p1']], ['submit', ['t3', 't4']]],
+        [['add', [['p1', ACT], ['p2', ACT]]], ['remove', ['p2']], ['submit', ['t3']], ['remove', ['p1', 'p2']],
+         ['submit', ['t4']], ['add', [['p3', ACT]]]],
+        [['submit', ['t2', 't3']], ['add', [['p1', ACT]]], ['remove', ['p1', 'p2']], ['tstates', ['t2'], 'DONE']],
+        # half-valid add commands: a pilot which is added already, after or before a new one
+        [['add', [['p2', ACT]]], ['submit', ['t1']], ['add', [['p2', ACT], ['p1', ACT]]], ['submit', ['t3', 't4']]],
+        [['add', [['p2', ACT]]], ['submit', ['t1']], ['add', [['p1', ACT], ['p2', ACT]]], ['submit', ['t3', 't4']],
+         ['remove', ['p1']]],
+        [['add', [['p1', ACT]]], ['add', [['p1', 'DONE']]], ['submit', ['t3']], ['remove', ['p2']], ['submit', ['t4']]],
         # round robin over a changing pilot list
         [['add', [['p1', ACT], ['p2', ACT], ['p3', ACT]]], ['submit', ['t2', 't3']], ['remove', ['p2']],
          ['submit', ['t4']], ['submit', ['t1']]],
+    ]
+    # early bound tasks of several bulks wait for the same pilot
+    two = {'t1': 'p1', 't3': 'p1'}
+    hist2 = [
+        (two, [['submit', ['t1']], ['submit', ['t3']], ['submit', ['t2']], ['add', [['p1', ACT]]]]),
+        (two, [['submit', ['t1', 't2']], ['add', [['p2', ACT]]], ['submit', ['t3', 't4']],
+               ['add', [['p1', 'NEW']]], ['tstates', ['t1', 't3'], 'DONE']]),
     ]
     out = []
     for pol in ('RR', 'BF'):
         for ops in hist:
             sc = dict(base, policy=pol)
+            out.append((rig_cfg(sc, explicit=['p3']), ops))
+        for named, ops in hist2:
+            sc = dict(base, policy=pol, named=named)
             out.append((rig_cfg(sc, explicit=['p3']), ops))
     return out
 
@@ -198,12 +224,40 @@ D15R = 'backfilling: final notification of a task placed before its pilot was re
 CTR  = ('add_pilots document contradicts a final state already notified '
         '(ValueError from _pilot_state_progress leaves the pilot half added)')
 STALE = 'pilot added with a document older than the state already notified or added'
+HALF  = ('%s: %s command names a pilot it cannot be applied to %s a valid one '
+         '(ValueError, the command is left half applied)')
 OTHER = 'other history'
+POLICY_NAME = {'RR': 'RoundRobin', 'BF': 'Backfilling'}
+
+
+def half_valid(trace):
+    '''first command which names a pilot it cannot be applied to and raised:
+       (kind, position of the first such entry relative to a valid one)'''
+    role = {p: 'none' for p in trace['pilots']}
+    for e in trace['events']:
+        if e['ev'] == 'AddPilots':
+            ps  = [p for p, _ in e['add']]
+            bad = [i for i, p in enumerate(ps) if role[p] == 'added']
+            if bad and len(bad) < len(ps) and e['raised'] == 'ValueError':
+                return 'add', 'after' if bad[0] > 0 else 'before'
+            for p in ps:
+                role[p] = 'added'
+        elif e['ev'] == 'RemovePilots':
+            bad = [i for i, p in enumerate(e['pids']) if role[p] != 'added']
+            if bad and len(bad) < len(e['pids']) and e['raised'] == 'ValueError':
+                return 'remove', 'after' if bad[0] > 0 else 'before'
+            for p in e['pids']:
+                if role[p] == 'added':
+                    role[p] = 'removed'
+    return None
 
 
 def classify(trace, clause):
     '''history class of a failing trace (for known-findings matching)'''
     evs = trace['events']
+    hv = half_valid(trace)
+    if hv:
+        return HALF % (POLICY_NAME[trace['policy']], hv[0], hv[1])
     if any(e['ev'] == 'AddPilots' and e['raised'] == 'ValueError' for e in evs):
         return CTR
     if clause == 'C12.ForwardOnce':
@@ -321,7 +375,11 @@ def run(chk, tier, seed):
                   ('DevAddForgetsState',   'bf-2t2p-stale', 'InvBFEligible'),
                   ('DevAddForgetsState',   'bf-2t2p-stale', 'InvForwardedIfEligible'),
                   ('DevAddForgetsState',   'bf-3t2p', 'InvRecords'),
-                  ('DevContradictionRaises', 'rr-2t2p-contradict', 'InvForwardedIfEligible')]
+                  ('DevContradictionRaises', 'rr-2t2p-contradict', 'InvForwardedIfEligible'),
+                  ('DevHalfValidAborts', 'rr-2t2p-contradict', 'InvOnlyAdded'),
+                  ('DevHalfValidAborts', 'rr-2t2p-contradict', 'InvForwardedIfEligible'),
+                  ('DevHalfValidAborts', 'bf-3t2p', 'InvOnlyAdded'),
+                  ('DevHalfValidAborts', 'bf-3t2p', 'InvRecords')]
         for dev, sname, inv in expect:
             res = tlc.run('TmgrSched', 'MC', 'MC.cfg', workers=16, timeout=900,
                           extra_files=mc_files(byname[sname], devs=[dev], invariants=[inv]))
@@ -336,6 +394,9 @@ def run(chk, tier, seed):
     # ---- 3. TLC behaviours -> callback sequences for the real schedulers ----------
     nsim = 25 if quick else 250
     for k, sc in enumerate(SIM_SCENARIOS):
+        # half-valid commands: quick keeps them to the (deterministic) directed histories and
+        # the exhaustive scenarios, so that the verdict does not depend on the seed
+        sc = dict(sc, half=not quick)
         # quick: alternate between the intended design and the code as it is
         for devs in ([[], DEVS_ASIS][k % 2:k % 2 + 1] if quick else [[], DEVS_ASIS]):
             dump = tlc.scratch('rpsim_')
@@ -360,7 +421,8 @@ def run(chk, tier, seed):
     for i in range(nrand):
         cfg = random_cfg(rng)
         rig = R.TmgrRig(**cfg)
-        ops, tr = rig.run_random(rng.randrange(10 ** 9), nops=rng.randint(6, 16))
+        ops, tr = rig.run_random(rng.randrange(10 ** 9), nops=rng.randint(6, 16),
+                                 p_half=0.0 if quick else 0.15)
         items.append((cfg, ops, tr, 'seeded random'))
 
     # ---- 5. validate everything with the monitor -----------------------------------
@@ -407,7 +469,8 @@ def random_cfg(rng):
 
 LOCK_DL = 'work() concurrent with control_cb(add_pilots): lock order inversion in %s.add_pilots (deadlock)'
 LOCK_LW = 'RoundRobin: work() concurrent with add_pilots: task parked after the pilot was added (lost wakeup)'
-POLICY_NAME = {'RR': 'RoundRobin', 'BF': 'Backfilling'}
+LOCK_RM = ('%s: work() between the role flip and the policy hook of control_cb(remove_pilots) '
+           'binds a task to the pilot already marked removed')
 LOCK_INVS = ['InvNoLostWakeup', 'InvAllForwarded']
 
 
@@ -423,6 +486,8 @@ def lock_verdict(res):
     '''what a schedule of the two real callbacks ended in'''
     if res['deadlock']:
         return 'deadlock'
+    if res.get('late'):
+        return 'late'
     if any(v > 1 for v in res['fwd'].values()):
         return 'twice'
     if res['wait'] and res['pids']:
@@ -432,8 +497,12 @@ def lock_verdict(res):
 
 def _lock_report(chk, res, kind):
     v = lock_verdict(res)
-    obj = {'rig': 'tmgrsched', 'kind': 'locks', 'policy': res['policy'],
+    obj = {'rig': 'tmgrsched', 'kind': 'locks', 'policy': res['policy'], 'mode': res.get('mode', 'add'),
            'init_wait': res['init_wait'], 'schedule': res['schedule'], 'outcome': res}
+    if v == 'late':
+        chk.violation('C12.OnlyAdded', LOCK_RM % POLICY_NAME[res['policy']],
+                      'real %s scheduler binds %s to p1 after control_cb(remove_pilots [p1]) marked it '
+                      'removed (%s); schedule %s' % (res['policy'], res['late'], kind, res['steps']), obj)
     if v == 'deadlock':
         chk.violation('C12.ForwardOnceMissing', LOCK_DL % POLICY_NAME[res['policy']],
                       'real %s scheduler deadlocks (%s): W blocked on %s holding %s, C blocked on %s '
@@ -471,23 +540,41 @@ def locks(chk, quick):
                                 % (pol, iw, res.violated))
             chk.notes.append('deviation DevAddLockOrder gives %s in TmgrLocks (%s, %d parked)'
                              % (want, pol, iw))
+    # remove_pilots: role and pid list change in one critical section (intended); the code
+    # flips the role first and calls the policy hook outside the lock, which only a policy
+    # that re-checks the role (Backfilling) survives
+    def rm_cfg(checked, dev):
+        return {'R.cfg': 'CONSTANTS\n RoleChecked = %s\n DevHookOutsideLock = %s\n'
+                         'SPECIFICATION Spec\nINVARIANT InvOnlyAdded\n'
+                         % (str(checked).upper(), str(dev).upper())}
+    for checked, dev, want in [(False, False, True), (True, True, True)] + \
+                              ([] if quick else [(True, False, True), (False, True, False)]):
+        res = tlc.run('TmgrSched', 'TmgrRemove', 'R.cfg', workers=1, timeout=300,
+                      extra_files=rm_cfg(checked, dev))
+        chk.add_tlc(res, 'locks:remove/checked=%s/dev=%s' % (checked, dev))
+        if res.ok != want:
+            raise Machinery('TmgrRemove RoleChecked=%s DevHookOutsideLock=%s: expected %s, got %s'
+                            % (checked, dev, 'ok' if want else 'InvOnlyAdded', res.violated))
     # code level: all schedules of the two real callbacks
     total, kinds = 0, {}
-    for pol, iw in cases:
-        for res in sorted(R.lock_schedules(pol, iw), key=lambda r: len(r['steps'])):
+    for pol, iw, mode in [c + ('add',) for c in cases] + [('RR', 0, 'remove'), ('BF', 0, 'remove')]:
+        for res in sorted(R.lock_schedules(pol, iw, mode=mode), key=lambda r: len(r['steps'])):
             total += 1
             v = lock_verdict(res)
+            iw = iw if mode == 'add' else mode
             kinds[(pol, iw, v)] = kinds.get((pol, iw, v), 0) + 1
             chk.nontrivial.add(hash((pol, iw, tuple(res['steps']))))
-            _lock_report(chk, res, 'all schedules, %d task(s) parked before' % iw)
+            _lock_report(chk, res, 'all schedules, %s' % ('%d task(s) parked before' % iw
+                                                         if mode == 'add' else 'p1 and p2 added'))
     chk.evaluations += total
-    chk.notes.append('lock granularity: %d schedules of real work() against real control_cb(add_pilots): %s'
-                     % (total, ', '.join('%s/%d %s=%d' % (k + (n,)) for k, n in sorted(kinds.items()))))
+    chk.notes.append('lock granularity: %d schedules of real work() against real control_cb(add_pilots / remove_pilots): %s'
+                     % (total, ', '.join('%s/%s %s=%d' % (k + (n,)) for k, n in sorted(kinds.items(), key=str))))
 
 
 def replay(chk, obj):
     if obj.get('kind') == 'locks':
-        res = R.LockProbe(obj['policy'], obj['init_wait'], obj['schedule']).run()
+        res = R.LockProbe(obj['policy'], obj['init_wait'], obj['schedule'],
+                          mode=obj.get('mode', 'add')).run()
         _lock_report(chk, res, 'replay')
         return
     cfg = obj['cfg']
